@@ -392,7 +392,7 @@ class IntegerSequence(SequenceBase):
         if self.i_step and self.p_start < self.p_context_start:
             # start from first point >= context start
             remainder = (
-                int(self.p_context_start - self.p_start) % int(self.i_step))
+                int(self.p_start - self.p_context_start) % int(self.i_step))
             self.p_start = (
                 self.p_context_start + IntegerInterval.from_integer(
                     remainder)
